@@ -8,3 +8,6 @@ import TsVerif.C13.Props
 #print axioms TsVerif.C13.seam_offset_preserved
 #print axioms TsVerif.C13.mark_end_on_range
 #print axioms TsVerif.C13.char_split_witness
+#print axioms TsVerif.C13.stream_concat
+#print axioms TsVerif.C13.stream_concat_text
+#print axioms TsVerif.C13.token_inside
